@@ -211,19 +211,23 @@ where
 
             // The key is registered by now. If the inner `call` panics, no future exists that
             // could free it again, and later requests would wait for a leader that never was.
+            // (Armed until the call has returned, not `thread::panicking()`: that is also true when
+            // this request is made from a destructor during an unrelated unwind.)
             struct CancelOnUnwind<'a, K: Hash + Eq + Clone, Res: Clone, E: Clone>(
                 &'a InFlight<K, Res, E>,
                 &'a K,
+                bool,
             );
             impl<K: Hash + Eq + Clone, Res: Clone, E: Clone> Drop for CancelOnUnwind<'_, K, Res, E> {
                 fn drop(&mut self) {
-                    if std::thread::panicking() {
+                    if self.2 {
                         self.0.cancel(self.1);
                     }
                 }
             }
-            let unwind_guard = CancelOnUnwind(&self.in_flight, &key);
+            let mut unwind_guard = CancelOnUnwind(&self.in_flight, &key, true);
             let future = self.inner.call(request);
+            unwind_guard.2 = false;
             drop(unwind_guard);
             let in_flight = Arc::clone(&self.in_flight);
 
@@ -280,20 +284,27 @@ where
                 // If the inner call (or cloning its result) panics, free the key at once: the
                 // caller may catch the panic and keep this future, and `Drop` would come too late
                 // for the waiters and for new requests.
+                // (Armed until this poll is over, not `thread::panicking()`: that is also true
+                // when the future is polled from a destructor during an unrelated unwind.)
                 struct CancelOnUnwind<'a, K: Hash + Eq + Clone, Res: Clone, E: Clone> {
                     in_flight: &'a InFlight<K, Res, E>,
                     key: &'a mut Option<K>,
+                    armed: bool,
                 }
                 impl<K: Hash + Eq + Clone, Res: Clone, E: Clone> Drop for CancelOnUnwind<'_, K, Res, E> {
                     fn drop(&mut self) {
-                        if std::thread::panicking() {
+                        if self.armed {
                             if let Some(k) = self.key.take() {
                                 self.in_flight.cancel(&k);
                             }
                         }
                     }
                 }
-                let guard = CancelOnUnwind { in_flight, key };
+                let mut guard = CancelOnUnwind {
+                    in_flight,
+                    key,
+                    armed: true,
+                };
 
                 match future.as_mut().poll(cx) {
                     Poll::Ready(result) => {
@@ -309,7 +320,10 @@ where
                         }
                         Poll::Ready(result.map_err(CoalesceError::Service))
                     }
-                    Poll::Pending => Poll::Pending,
+                    Poll::Pending => {
+                        guard.armed = false;
+                        Poll::Pending
+                    }
                 }
             }
             CoalesceFuture::Waiting { receiver } => {
